@@ -15,6 +15,7 @@ import (
 	"io/ioutil"
 	"net/http"
 	"net/url"
+	"sync"
 
 	"google.golang.org/grpc"
 
@@ -196,9 +197,16 @@ type verifStreamRecorder struct {
 	code        int
 	wroteHeader bool
 	ready       chan struct{}
-	pw          *io.PipeWriter
+	pw          verifBodyWriter
 	body        []byte // everything written, for inspection
 	cut         int    // if >= 0: the connection breaks after this many body bytes
+	// buffered: like a net/http server that lets the response go out while the
+	// request body is still open (HTTP/2, or HTTP/1.1 with EnableFullDuplex), what
+	// the handler writes sits in the server's write buffer until Flush or until the
+	// handler returns; the status line and headers go out with the first flush.
+	buffered bool
+	pending  []byte
+	flushed  bool
 }
 
 func (r *verifStreamRecorder) Header() http.Header {
@@ -218,7 +226,9 @@ func (r *verifStreamRecorder) WriteHeader(code int) {
 	for k, vs := range r.Header() {
 		r.sent[k] = append([]string(nil), vs...)
 	}
-	close(r.ready)
+	if !r.buffered {
+		close(r.ready)
+	}
 }
 
 func (r *verifStreamRecorder) Write(b []byte) (int, error) {
@@ -226,10 +236,30 @@ func (r *verifStreamRecorder) Write(b []byte) (int, error) {
 		r.WriteHeader(http.StatusOK)
 	}
 	r.body = append(r.body, b...)
+	if r.buffered {
+		r.pending = append(r.pending, b...)
+		return len(b), nil
+	}
 	return r.pw.Write(b)
 }
 
-func (r *verifStreamRecorder) Flush() {}
+func (r *verifStreamRecorder) Flush() {
+	if !r.buffered {
+		return
+	}
+	if !r.wroteHeader {
+		r.WriteHeader(http.StatusOK)
+	}
+	if !r.flushed {
+		r.flushed = true
+		close(r.ready)
+	}
+	if len(r.pending) > 0 {
+		p := r.pending
+		r.pending = nil
+		r.pw.Write(p)
+	}
+}
 
 // verifStreamTransport runs the handler in its own goroutine; RoundTrip returns
 // once the response header is written, the response body is a pipe. When the
@@ -243,6 +273,7 @@ type verifStreamTransport struct {
 	remoteAddr string
 	rec        *verifStreamRecorder
 	done       chan struct{} // closed when the handler has returned
+	buffered   bool          // see verifStreamRecorder.buffered
 }
 
 func (t *verifStreamTransport) RoundTrip(req *http.Request) (*http.Response, error) {
@@ -265,8 +296,15 @@ func (t *verifStreamTransport) RoundTrip(req *http.Request) (*http.Response, err
 		Method: req.Method, URL: req.URL, Proto: "HTTP/1.1", ProtoMajor: 1, ProtoMinor: 1,
 		Header: reqHdr, Body: body, Host: req.Host, RemoteAddr: t.remoteAddr, TLS: t.tls,
 	}).WithContext(sctx)
-	pr, pw := io.Pipe()
-	rec := &verifStreamRecorder{ready: make(chan struct{}), pw: pw, cut: -1}
+	var pr io.ReadCloser
+	var pw verifBodyWriter
+	if t.buffered {
+		sb := newVerifSockBuf()
+		pr, pw = sb, sb
+	} else {
+		pr, pw = io.Pipe()
+	}
+	rec := &verifStreamRecorder{ready: make(chan struct{}), pw: pw, cut: -1, buffered: t.buffered}
 	t.rec = rec
 	t.done = make(chan struct{})
 	go func() {
@@ -274,7 +312,12 @@ func (t *verifStreamTransport) RoundTrip(req *http.Request) (*http.Response, err
 		if !rec.wroteHeader {
 			rec.WriteHeader(http.StatusOK)
 		}
-		pw.Close()
+		rec.Flush() // the server flushes when the handler returns
+		if sb, ok := pw.(*verifSockBuf); ok {
+			sb.CloseWrite()
+		} else {
+			pw.Close()
+		}
 		scancel()
 		close(t.done)
 	}()
@@ -298,6 +341,92 @@ func (t *verifStreamTransport) RoundTrip(req *http.Request) (*http.Response, err
 		Proto: "HTTP/1.1", ProtoMajor: 1, ProtoMinor: 1,
 		Header: verifWireResp(rec.sent), Body: pr, TLS: t.tls, Request: req,
 	}, nil
+}
+
+type verifBodyWriter interface {
+	Write(p []byte) (int, error)
+	Close() error
+	CloseWithError(err error) error
+}
+
+// verifSockBuf is the response direction of a connection with socket buffering:
+// what the server has flushed is queued (up to 64 writes, far more than any
+// harness produces) and the server goes on; the client reads it when it gets to
+// it. The writer's Close ends the stream (EOF after the queued data),
+// CloseWithError fails pending and later reads, the reader's Close makes writes
+// fail.
+type verifSockBuf struct {
+	ch      chan []byte
+	cur     []byte
+	failed  chan struct{}
+	failErr error
+	rclosed chan struct{}
+	wclosed bool
+	once    sync.Once
+	ronce   sync.Once
+	wonce   sync.Once
+}
+
+func newVerifSockBuf() *verifSockBuf {
+	return &verifSockBuf{ch: make(chan []byte, 64), failed: make(chan struct{}), rclosed: make(chan struct{})}
+}
+
+func (b *verifSockBuf) Write(p []byte) (int, error) {
+	c := append([]byte(nil), p...)
+	select {
+	case <-b.rclosed:
+		return 0, io.ErrClosedPipe
+	case <-b.failed:
+		return 0, io.ErrClosedPipe
+	default:
+	}
+	select {
+	case b.ch <- c:
+		return len(p), nil
+	case <-b.rclosed:
+		return 0, io.ErrClosedPipe
+	case <-b.failed:
+		return 0, io.ErrClosedPipe
+	}
+}
+
+func (b *verifSockBuf) Read(p []byte) (int, error) {
+	if len(b.cur) == 0 {
+		select {
+		case c, ok := <-b.ch:
+			if !ok {
+				return 0, io.EOF
+			}
+			b.cur = c
+		case <-b.failed:
+			return 0, b.failErr
+		case <-b.rclosed:
+			return 0, io.ErrClosedPipe
+		}
+	}
+	n := copy(p, b.cur)
+	b.cur = b.cur[n:]
+	return n, nil
+}
+
+// Close is called by both ends (http.Response.Body.Close by the client, the
+// transport when the handler has returned): the first call from the writer side
+// is distinguished by CloseWrite.
+func (b *verifSockBuf) Close() error {
+	b.ronce.Do(func() { close(b.rclosed) })
+	return nil
+}
+
+func (b *verifSockBuf) CloseWrite() {
+	b.wonce.Do(func() { close(b.ch) })
+}
+
+func (b *verifSockBuf) CloseWithError(err error) error {
+	b.once.Do(func() {
+		b.failErr = err
+		close(b.failed)
+	})
+	return nil
 }
 
 // verifHTTP builds a client channel and server for services a and b.
